@@ -8,7 +8,6 @@ import (
 	"strings"
 	"time"
 
-	"verif/harness/core"
 	"verif/harness/tlc"
 )
 
@@ -22,42 +21,39 @@ type Modes struct {
 	FlagEarly bool   `json:"flagEarly"` // version 1 discarded at once when the flag is off
 }
 
-// Repaired is the behaviour after the proposed repairs VALREG-1, -2, -3, -5; AsFound the tree as
-// it was found. VERIF_VALREG_MODES=asfound or a list like "nil=panic,batch=db" overrides; a known
-// finding with match.stage = "valreg" and match.defect = nil|status|batch|nonceq|count switches
-// that alternative to the code as found (the finding then explains the monitor failures).
+// AsFound is the tree as it is (the DEFAULT: /repo is not changed for the observations of this
+// stage); Repaired is the behaviour after the proposed repairs VALREG-1, -2, -3, -5
+// (docs/fixes-proposed). VERIF_VALREG_MODES=repaired, or a list like "nil=skip,status=err,batch=batch,
+// nonceq=lex,count=64,flagearly=true", selects the repaired alternatives for a tree that has the diffs.
 var (
 	Repaired = Modes{Nil: "skip", Status: "err", Batch: "batch", NonceQ: "lex", CountCap: 64, FlagEarly: true}
 	AsFound  = Modes{Nil: "panic", Status: "panic", Batch: "db", NonceQ: "conj", CountCap: 0, FlagEarly: false}
 )
 
-func (m *Modes) setAsFound(defect string) {
+// setRepaired switches ONE alternative to the repaired behaviour (used to attribute an observed
+// monitor failure to a defect: the lines that drift from the spec with exactly that alternative
+// repaired are the lines where that defect acts).
+func (m *Modes) setRepaired(defect string) {
 	switch defect {
 	case "nil":
-		m.Nil, m.Status = AsFound.Nil, AsFound.Status
-	case "status":
-		m.Status = AsFound.Status
+		m.Nil, m.Status = Repaired.Nil, Repaired.Status
 	case "batch":
-		m.Batch = AsFound.Batch
+		m.Batch = Repaired.Batch
 	case "nonceq":
-		m.NonceQ = AsFound.NonceQ
+		m.NonceQ = Repaired.NonceQ
 	case "count":
-		m.CountCap, m.FlagEarly = AsFound.CountCap, AsFound.FlagEarly
+		m.CountCap, m.FlagEarly = Repaired.CountCap, Repaired.FlagEarly
 	}
 }
 
-func modesFromEnv(known []core.Finding) Modes {
-	m := Repaired
-	for _, k := range known {
-		if st, _ := k.Match["stage"].(string); st == "valreg" {
-			if d, _ := k.Match["defect"].(string); d != "" {
-				m.setAsFound(d)
-			}
-		}
-	}
+func modesFromEnv() Modes {
+	m := AsFound
 	s := os.Getenv("VERIF_VALREG_MODES")
-	if s == "asfound" {
+	switch s {
+	case "asfound", "":
 		return AsFound
+	case "repaired":
+		return Repaired
 	}
 	for _, kv := range strings.Split(s, ",") {
 		p := strings.SplitN(strings.TrimSpace(kv), "=", 2)
